@@ -170,6 +170,48 @@ func jobC09(c *rt.Ctx) {
 			}
 		}
 	}
+	// the same torsion-key (or torsion-R) entry repeated across a chunk boundary (positions 60..71 of 72):
+	// every copy must be refused in default mode
+	c.Require("e2e/run-across-chunks")
+	for ti, tr := range tors {
+		for which := 0; which < 2; which++ {
+			if !c.Take() {
+				continue
+			}
+			vs := vAll[ti%3]
+			msg := msgOf(2, vs)
+			var t triple
+			if which == 0 {
+				r := big.NewInt(11)
+				t = triple{tr.b, msg, append(append([]byte{}, ptOf(r, 0).Encode()...), ref.ToLE(r, 32)...)}
+			} else {
+				A := ptOf(a0, 0).Encode()
+				h := ref.HashModL(ref.Dom2(vs.v, []byte(vs.ctx)), tr.b, A, msg)
+				S := new(big.Int).Mul(h, a0)
+				S.Mod(S, ref.L)
+				t = triple{A, msg, append(append([]byte{}, tr.b...), ref.ToLE(S, 32)...)}
+			}
+			entries := append([]triple{}, fillers(vs, 72)...)
+			for i := 60; i < 72; i++ {
+				entries[i] = t
+			}
+			_, valid, err, bpv := implBatch(entries, vs, false, rt.NewRng(c.Seed, "c09run"))
+			c.Step(1)
+			c.Class("e2e/run-across-chunks")
+			c.Distinct(fmt.Sprintf("run %d %d", ti, which), true)
+			bad := bpv != nil || err != nil || len(valid) != 72
+			if !bad {
+				for i, v := range valid {
+					if v != (i < 60) {
+						bad = true
+					}
+				}
+			}
+			if bad {
+				c.Violation(fmt.Sprintf("C09 batch run-across-chunks %s", [2]string{"key-small", "R-small"}[which]), fmt.Sprintf("VerifyBatch default mode with the same small-order entry (%s) at positions 60..71 of 72 reported %v", tr.name, valid), map[string]interface{}{"string": tr.name, "valid": fmt.Sprint(valid)})
+			}
+		}
+	}
 	// scan: predicate == model for every y in [0, 2^13) x both sign bits (thorough 2^16)
 	lim := 1 << 14
 	if c.Thorough() {
